@@ -86,7 +86,9 @@ func runScenario(i int, sc Scenario, deadline time.Time) scenResult {
 	}
 	out.Executions, out.States, out.Transitions, out.Pruned, out.Replays = r.Executions, r.States, r.Transitions, r.Pruned, r.Replays
 	out.WithDev, out.MaxG, out.Outcomes, out.Failures, out.Capped, out.EngineError = r.WithDeviation, r.MaxGoroutines, r.Outcomes, r.Failures, r.Capped, r.HarnessError
-	if sc.Post != nil && r.Capped == "" {
+	// outcome-set oracles are monotone (more executions can only add outcomes): they are evaluated on a
+	// capped exploration too, what they report there stays true
+	if sc.Post != nil {
 		if v := sc.Post(r); v != "" {
 			out.Failures = append(out.Failures, explore.Failure{Verdict: v})
 		}
